@@ -28,7 +28,7 @@ theorem pow2_loop (all : List Entry) (md : Int) : ∀ (fuel : Nat) (acc : List E
     intro acc i hi
     unfold Generated.Go.getEveryPow2_loop1 everyPow2
     by_cases hc : i ≤ md
-    · simp only [hc, decide_true, if_true, C19Gen.minInt_eq, Bool.not_true, Bool.or_false]
+    · simp only [hc, decide_true, if_true, C19Gen.minInt_eq, Bool.not_true, Bool.or_false, Bool.and_true]
       -- the index: negative only for an empty map, where position 0 is empty too
       have hidx : (if decide (min ((all.length : Int) - 1) (i - 1) < 0) = true then none
             else all[(min ((all.length : Int) - 1) (i - 1)).toNat]?) = all[(min ((all.length : Int) - 1) (i - 1)).toNat]? := by
@@ -39,11 +39,12 @@ theorem pow2_loop (all : List Entry) (md : Int) : ∀ (fuel : Nat) (acc : List E
         · simp [hneg]
       rw [hidx]
       cases hg : all[(min ((all.length : Int) - 1) (i - 1)).toNat]? with
+      -- (the code may test `e == nil || !e.Defined()` and continue, or `e != nil && e.Defined()` and append)
       | none =>
-        simp only [Option.isNone_none, if_true]
+        simp only [Option.isNone_none, Option.isSome_none, Bool.false_eq_true, if_true, if_false]
         exact ih acc (i * 2) (by omega)
       | some e =>
-        simp only [Option.isNone_some, Bool.false_eq_true, if_false, Option.getD_some]
+        simp only [Option.isNone_some, Option.isSome_some, Bool.false_eq_true, if_true, if_false, Option.getD_some]
         rw [ih (acc ++ [e]) (i * 2) (by omega)]
         simp
     · simp [hc]
@@ -199,7 +200,8 @@ theorem appendPlan_eq (l : Log) (pcOpt : Int)
     · simp only [hc, decide_true, if_true]
       cases all.getLast? <;> rfl
     · simp only [hc, decide_false, Bool.false_eq_true, if_false]
-  simp only [hnext, hin, hrefs1]
+  -- (the search among the predecessors may be the loop with `break` or an extracted helper with an early return)
+  simp only [gohelper, search_true, List.any_beq, hnext, hin, hrefs1]
   rw [refs_fold]
   simp
 
